@@ -17,6 +17,7 @@ EXPLANATION_ADDED2 = ' R1 also requires that every Ok(()) of the sender is domin
 EXPLANATION = EXPLANATION + " Added while testing against seeded changes: " + EXPLANATION_ADDED + EXPLANATION_ADDED2
 EXPLANATION = EXPLANATION + ' Round 10: (R5) datagrams reach the application in queue order: one-at-a-time receive, or a strictly first-in first-out intermediate store; the Options setter stores its argument (R4).'
 EXPLANATION = EXPLANATION + ' Rounds 12-13: (R7) a datagram the sender refuses does not end the connection: at the send_datagram call sites of the client / server loops the Err edge returns to the loop (a return only under a test for Closed).'
+EXPLANATION = EXPLANATION + ' Rounds 14-15: (S9) Frame::new_datagram* are exact.'
 ASSUMPTIONS = ["single FIFO (S1) + bounded tokio queue give order and at-most-once"]
 NOT_DECIDED = "loss only when the buffer is full (needs counting at run time)"
 DG = "penguin_mux::Datagram"
